@@ -17,12 +17,15 @@ REQUIRED_THEOREMS = ["C13_known_names_true_nothrow", "C13_never_throws", "C13_ex
                      "C13_prediction_reported", "C13_skipped_prediction_is_identity", "C13_skipped_correction_is_identity",
                      "C13_identity_after_prediction_on", "C13_identity_after_correction_on", "C13_identity_by_rule",
                      "C13_correction_identity_by_rule", "C13_reversible", "C13_all_off_restores_fresh_state",
-                     "C13_reversible_all_off", "C13_reachable_predictions"]
+                     "C13_reversible_all_off", "C13_reachable_predictions", "C13_each_guard_is_needed", "C13_prediction_restored",
+                     "C13_correction_restored", "C13_state_skipped_gaussian_identity", "C13_state_skipped_gpf_identity_partial"]
 RULE = ("command words over {prediction,state,exogenous,correction,all,<bogus>} x {on,off} on assembled filters (GaussianFilter with KF / UKF steps, "
         "SIS with bootstrap / Gaussian-particle steps; also a bootstrap filter whose exogenous model is given to the DrawParticles constructor), with and without exogenous model. quick: every word of length <= 3 with predict and correct "
         "after every command on all 8 configurations, every word of length 4 (final flags, answers, one predict and one correct at the end) on all 8 "
         "configurations, and a random sample of length-4..8 words with full interleaving; thorough: additionally every word of length 5 on all 8 "
         "configurations, every word of length 6 on the 4 (family, exogenous) combinations, random words of length <= 30 with random interleaving. "
+        "beliefs: linear for KF / bootstrap, also Euler-circular and quaternion layouts for UKF, Euler-circular for generic-UKF+SUKF and Gaussian-particle(UKF); "
+        "where the code assigns the whole output object (skipped wrapper, KF/UKF predictStep test) half of the steps get an output object of another shape; "
         "non-trivial = a word with at least two commands one of which is 'on'; distinct by (configuration, exogenous, word)")
 TRUSTED_BASE = ["Coq 8.16.1 kernel (coqc); no axioms (Print Assumptions: closed under the global context)",
                 "extraction (ExtrOcamlBasic only) and ocaml/drv_C13.ml, ocaml/caseio.ml",
@@ -30,14 +33,16 @@ TRUSTED_BASE = ["Coq 8.16.1 kernel (coqc); no axioms (Print Assumptions: closed 
                 "served measurement), the classification of a step's output by bitwise comparison with the input and with never-skipped twins",
                 "the model abstracts the numerical bodies of predictStep / correctStep as arbitrary functions (pstep, cstep); what they compute is C01-C08's subject",
                 "correspondence is sampled beyond the exhaustively enumerated word lengths"]
-ASSUMPTIONS = ["the filter is driven from one thread (data races on the flags are C10's subject)",
+ASSUMPTIONS = ["GPFPrediction::predictStep: the output particle set has the input's shape (C13_state_skipped_gpf_identity_partial; otherwise the sliced "
+               "assignment + Ref copy leave an inconsistent object, C13_state_skipped_gpf_other_shape) -- as for every non-skipped step (C14)",
+               "the filter is driven from one thread (data races on the flags are C10's subject)",
                "the correction's skip flag has no accessor; it is observed through the behaviour of correct() only",
                "GPFPrediction's wrapped GaussianPrediction is not reachable by skip commands (modelled flag f_inner, proved never to change)"]
 TIMEOUT = 3000
 
 NAMES = ["prediction", "state", "exogenous", "correction", "all"]
 BOGUS = ["bogus", "Prediction", "states", "al", "correct"]
-KINDS = ["kf", "ukf", "boot", "gpf"]
+KINDS = ["kf", "ukf", "ukfg", "boot", "gpf"]     # ukfg: generic UKFPrediction constructor + SUKFCorrection
 # Case kind boot2: a bootstrap filter whose exogenous model is handed to DrawParticles(state_model, exogenous_model).
 # Before "fix: DrawParticles attaches the exogenous model it is constructed with" (567e2e7) that constructor only stored the
 # model in a member nothing reads (old transcription and refuted witness: C13_Regress.v). The model now says it attaches it.
@@ -55,37 +60,76 @@ def alphabet(bogus="bogus"):
     return ["%s:%s" % (n, s) for n in NAMES + [bogus] for s in ("on", "off")]
 
 
-def operands(rng, c, kind):
-    n = rng.choice([1, 2, 3]) if kind != "gpf" else rng.choice([2, 3])
+LAYOUTS = {   # (dim_linear, dim_circular, use_quaternion)
+    "kf": [(1, 0, 0), (2, 0, 0), (3, 0, 0)], "boot": [(1, 0, 0), (2, 0, 0), (3, 0, 0)], "boot2": [(1, 0, 0), (2, 0, 0), (3, 0, 0)],
+    "ukf": [(1, 0, 0), (2, 0, 0), (3, 0, 0), (1, 1, 0), (0, 1, 0), (2, 1, 0), (0, 2, 0), (1, 1, 1), (0, 1, 1), (2, 1, 1)],
+    "ukfg": [(1, 0, 0), (2, 0, 0), (3, 0, 0), (1, 1, 0), (0, 1, 0), (2, 1, 0)],
+    "gpf:kf": [(2, 0, 0), (3, 0, 0)], "gpf:ukf": [(2, 0, 0), (3, 0, 0), (1, 1, 0), (2, 1, 0), (0, 2, 0)],
+}
+
+
+def operands(rng, c, kind, allow_quat=True):
+    key = kind
+    if kind == "gpf":
+        c.meta["inner"] = rng.choice(["kf", "ukf"])
+        key = "gpf:" + c.meta["inner"]
+    lin, circ, quat = rng.choice([l for l in LAYOUTS[key] if allow_quat or not l[2]])
+    n = lin + circ * (4 if quat else 1)
+    nc = lin + circ * (3 if quat else 1)
     m = rng.choice([1, 2])
     F = gen.matrix(rng, n, n) + 0.3 * np.eye(n)
-    Q, _ = gen.spd(rng, n, 10.0, 0.5)
+    Q, _ = gen.spd(rng, nc, 10.0, 0.5)
     R, _ = gen.spd(rng, m, 10.0, 0.5)
     c.mat("F", F).mat("Q", Q).mat("H", gen.matrix(rng, m, n)).mat("R", R).mat("y", gen.matrix(rng, m, 1, 2.0))
     c.mat("noise", gen.matrix(rng, n, 1, 0.7))
     c.mat("B", gen.matrix(rng, n, n)).mat("c", gen.matrix(rng, n, 1, 4.0))
     c.int("seed", rng.randrange(1, 2 ** 31))
     c.meta["n"] = n
+    c.meta["circ"] = circ
+    c.meta["quat"] = quat
     c.meta["np"] = rng.choice([1, 2, 3, 4])
-    if kind == "gpf":
-        c.meta["inner"] = rng.choice(["kf", "ukf"])
+
+
+def step_ops(rng, kind, exo_eff, st, which, quat=0):
+    """predict / correct tokens after the commands seen so far (rule state st = (S, E, C)).  Where the code assigns the
+    WHOLE output object (wrapper skip; KF/UKF predictStep's own test) the output object handed in may have any shape:
+    half of those steps get an output object of another shape ("!").  Everywhere else a different shape is outside the
+    steps' contract (C14) and, for the Gaussian-particle prediction with the state model skipped, the documented premise."""
+    S, E, C = st
+    P = S and (E or not exo_eff)
+    out = []
+    for w in which:
+        if w == "predict":
+            whole = P or (S and kind in ("kf", "ukf", "ukfg"))
+            out.append("predict!" if whole and rng.random() < 0.5 else "predict")
+        elif quat and not C:
+            # UKFCorrection on a quaternion state is the open finding C14:UKFCorrection::correct:quaternion-state
+            # (tangent-space correction added to a 4-number mean): only skipped corrections are exercised there
+            continue
+        else:
+            out.append("correct!" if C and rng.random() < 0.5 else "correct")
+    return out
 
 
 def word_case(rng, cid, kind, exo, cmds, interleave):
     """interleave: 'all' = predict and correct after every command; 'random'; 'end'"""
     c = caseio.Case(cid, kind, {"exo": int(exo), "mode": "word", "len": len(cmds)})
     operands(rng, c, kind)
+    exo_eff = bool(exo) and (kind != "boot2" or DRAWPARTICLES_CTOR_ATTACHES)
+    st = (False, False, False)
     ops = []
     if interleave == "random" and rng.random() < 0.5:
-        ops += ["predict", "correct"]
+        ops += step_ops(rng, kind, exo_eff, st, ["predict", "correct"], c.meta["quat"])
     for x in cmds:
         ops.append(x)
+        name, s_ = x.rsplit(":", 1)
+        st = rule_step(st, name, s_ == "on", exo_eff)
         if interleave == "all":
-            ops += ["predict", "correct"]
+            ops += step_ops(rng, kind, exo_eff, st, ["predict", "correct"], c.meta["quat"])
         elif interleave == "random":
-            ops += rng.choice([[], ["predict"], ["correct"], ["predict", "correct"], ["correct", "predict"]])
+            ops += step_ops(rng, kind, exo_eff, st, rng.choice([[], ["predict"], ["correct"], ["predict", "correct"], ["correct", "predict"]]), c.meta["quat"])
     if interleave != "all":
-        ops += ["predict", "correct"]
+        ops += step_ops(rng, kind, exo_eff, st, ["predict", "correct"], c.meta["quat"])
     if ops:
         c.word("ops", ops)
     return c
@@ -93,7 +137,7 @@ def word_case(rng, cid, kind, exo, cmds, interleave):
 
 def enum_case(rng, cid, kind, exo, prefix, ext):
     c = caseio.Case(cid, kind, {"exo": int(exo), "mode": "enum", "len": len(prefix) + ext})
-    operands(rng, c, kind)
+    operands(rng, c, kind, allow_quat=False)
     c.word("alphabet", alphabet())
     if prefix:
         c.word("prefix", prefix)
@@ -144,10 +188,10 @@ def generate(rng, tier):
         for (k, e) in cfgs:
             for a in A:
                 cases.append(enum_case(rng, nid(), k, e, [a], 4))
-        for fam in (("kf", "ukf"), ("boot", "gpf")):
+        for fam in (("kf", "ukf", "ukfg"), ("boot", "gpf")):
             for e in (0, 1):
                 for i, (a, b) in enumerate(itertools.product(A, repeat=2)):
-                    cases.append(enum_case(rng, nid(), fam[i % 2], e, [a, b], 4))
+                    cases.append(enum_case(rng, nid(), fam[i % len(fam)], e, [a, b], 4))
     return cases
 
 
@@ -263,6 +307,13 @@ def check_word(sig, cfg, exo, cmds, answers, flag_seq, steps):
     for pos, kind, tok in steps:
         S, E, C = states[pos]
         P = S and (E or not exo)
+        if kind.endswith("!"):
+            # generated only where the code assigns the whole output object: must be the input, shape included
+            kind = kind[:-1]
+            if tok != "identity":
+                v.append(("C13:skipped-%s-not-identity:%s:exo=%d:other-shape-output" % ("prediction" if kind == "predict" else "correction", cfg, exo),
+                          "after %s %s() into an output object of another shape returned '%s'" % (cmds[:pos], kind, tok)))
+                continue
         if tok == "other":
             v.append(("C13:step-unclassified:%s:exo=%d:%s" % (cfg, exo, kind), "after %s the %s step returned neither its input nor what a never-skipped filter returns" % (cmds[:pos], kind)))
         if kind == "predict":
@@ -349,7 +400,7 @@ def oracle(c, impl, model):
                 answers.append(tok.split(",")[0][2:])
                 flag_seq.append(parse_flags(tok.split(",", 1)[1]))
             else:
-                steps.append((len(cmds), op, tok))
+                steps.append((len(cmds), op, tok))     # op may end with "!": output object of another shape
         if cfg == "boot2":
             # the code as it is: no exogenous model as far as the skip machinery is concerned -- must be clean in that reading;
             # the property's reading (an exogenous model was supplied): every failing clause is the one finding
